@@ -2,8 +2,9 @@
     Strings are byte lists; [utf8_valid] is well-formedness (what a Rust [&str] guarantees);
     model functions are the line-by-line transcriptions in Model/Scan.v and Model/Rfc2822.v
     ([Val]/[Panic] = returns / traps); the specification is Spec/Rfc2822.v. *)
-From Coq Require Import ZArith List Bool.
-From V Require Import Base.Int Base.IO Base.Utf8 Model.Scan Model.C11 Spec.Rfc2822
+From Coq Require Import ZArith List Bool String.
+From V Require Model.Date Model.Time.
+From V Require Import Base.Int Base.IO Base.Utf8 Model.Scan Model.DateTime Model.C11 Spec.Rfc2822
   Proofs.Utf8 Proofs.Scan Proofs.C11.
 Import ListNotations.
 Open Scope Z_scope.
@@ -15,3 +16,28 @@ Theorem C11_year_rule : forall yearlen year,
   year_rule yearlen year = Val (year_rule_spec yearlen year).
 Proof. exact year_rule_ok. Qed.
 Print Assumptions C11_year_rule.
+
+(* scan::comment_2822 never traps on a well-formed string (of a length a Rust string can have) and
+   is the parenthesis-counting state machine [cpure] applied after trim_start *)
+Theorem C11_comment_total : forall s, utf8_valid s = true -> blen s <= u64_max ->
+  comment_2822 s = Val (comment_pure s).
+Proof. exact comment_2822_ok. Qed.
+Print Assumptions C11_comment_total.
+
+(* comment_spec: the comment scanner accepts exactly balanced parenthesised text with backslash
+   escapes (Spec/Rfc2822.v [ccontent]: any byte but "(" ")" "\", "\" followed by any byte, nested
+   comments) after optional white space, and returns what follows the closing parenthesis *)
+Theorem C11_comment_spec : forall s rest, utf8_valid s = true -> blen s <= u64_max ->
+  (comment_2822 s = Val (POk (rest, tt)) <-> exists a, ccontent a /\ trim_start s = 40 :: a ++ 41 :: rest).
+Proof. exact comment_exact. Qed.
+Print Assumptions C11_comment_spec.
+Example C11_comment_spec_inhabited :
+  comment_2822 (B" (a(b\)c)d) x") = Val (POk (B" x", tt)).
+Proof. vm_compute. reflexivity. Qed.
+Print Assumptions C11_comment_spec_inhabited.
+
+(* outside wall-clock years 0..9999 the writer reports fmt::Error and to_rfc2822 panics, as documented *)
+Theorem C11_writer_year_panic : forall a naive, overflowing_naive_local a = Val naive ->
+  ~ (0 <= Date.d_year (nd_date naive) <= 9999) -> to_rfc2822 a = Panic.
+Proof. exact to_rfc2822_panics. Qed.
+Print Assumptions C11_writer_year_panic.
